@@ -818,7 +818,7 @@ def run_in_zygote(case, hashseed, fork_run):
         res['evals'] = res.get('evals', 0) + 1
         res['ticks'] = res.get('ticks', 0) + r2.get('ticks', 0)
         res.setdefault('probes', {})['solo_reexecutions'] = res.get('probes', {}).get('solo_reexecutions', 0) + 1
-        if r2['digest'] != 'solo-unbuildable' and r2['digest'] != res['steps'][int(idx)]:
+        if r2['digest'] not in ('solo-unbuildable', 'timeout') and res['steps'][int(idx)] != 'timeout' and r2['digest'] != res['steps'][int(idx)]:
             res['viol'].append(viol('history-dependent-result', inp.get('name') or inp['op'],
                                     {'step': int(idx), 'in_session': res['steps'][int(idx)], 'alone': r2['digest'], 'args': inp['args'], 'params': inp['params']}))
     res.pop('solo_inputs', None)
